@@ -21,6 +21,19 @@
 (* furthest edge.  ins[s] says whether the target (its antipode for far)   *)
 (* is certainly inside (1) / certainly outside (-1) the polygon shape s.   *)
 (*                                                                         *)
+(* W3 scenes (InitW3/NextW3): the geometry in which a permitted error can  *)
+(* make the search stop early.  Three groups of points isolated on         *)
+(* separate cube faces: a cluster of KSize identical points on face 0 (one *)
+(* index cell with >= 10 edges: it is queued with a cell bound), a single  *)
+(* point just across the boundary on face 1 (scanned at once), 25 filler   *)
+(* points on face 3 (to reach the optimized path); an index target of two  *)
+(* points q0, q1 near the cluster, q0 first, slightly further away than    *)
+(* q1 (for furthest-edge queries: their antipodes).  The bound of the      *)
+(* cluster's cell is then measured through q0 and is off by less than      *)
+(* MaxError; the replay sweeps MaxError over the gaps of the scene.  TLC   *)
+(* enumerates the step counts; no distance prediction (the verdict is the  *)
+(* maxError relation against the exhaustive scan).                         *)
+(*                                                                         *)
 (* W2 scenes (InitW2/NextW2): rectangles and rows of level-G grid cells of *)
 (* several cube faces (loops of 2(w+h) grid edges, far above the           *)
 (* brute-force thresholds), targets at centres of finer cells; containment *)
@@ -47,7 +60,13 @@ CONSTANTS
     GRectCodes,   \* W2: rectangles  (((f*K + i0)*K + i1)*K + j0)*K + j1,  K = 2^G + 1
     GRowCodes,    \* W2: rows        ((f*K + i0)*K + i1)*K + j
     GTgtCodes,    \* W2: targets     (f*K2 + i)*K2 + j,  K2 = 2^(G+2): centre of that level G+2 cell
-    GCloudCodes   \* W2: set of sets of target codes: index targets made of several cell centres
+    GCloudCodes,  \* W2: set of sets of target codes: index targets made of several cell centres
+    KLevel,       \* W3 (isolated clusters): grid level of all points
+    KIC, KJC,     \* W3: grid corner (KIC, KJC) of face 0 carrying the cluster
+    KSize,        \* W3: number of (identical) points of the cluster: 10 = one index cell that is queued, not scanned at once
+    KA1,          \* W3: steps from the cluster to the target point q1 (along i)
+    KA0D,         \* W3: the other target point q0 is KA1 + d steps away (along j), d in KA0D
+    KRA           \* W3: the single point lies this many steps beyond the face boundary on face 1
 
 ASSUME N \in 1..3
 
@@ -334,6 +353,27 @@ CaseW2 ==
                     ELSE IF Far THEN 0
                     ELSE IF \E i \in 1..Len(tgs) : GInside(GRects[s], tgs[i]) THEN 1 ELSE -1]]
 EmitW2 == IF Full THEN PrintT(<<"CASE", ToJson(CaseW2)>>) ELSE TRUE
+(***************************************************************************)
+(* W3 scenes                                                               *)
+(***************************************************************************)
+InitW3 == t \in {<<a1>> : a1 \in KA1}
+NextW3 == Len(t) = 1 /\ t' \in {<<t[1], d, ra, far>> : d \in KA0D, ra \in KRA, far \in {0, 1}}
+KN == 2 ^ KLevel
+\* a vertex [f, level, i, j, 2] is the centre of the level-KLevel cell (i, j) of face f (a centre
+\* is interior to its cells of all levels, so a lone cluster gets a small index cell),
+\* [f, level, i, j, 3] the antipode of that centre
+KT(f, i, j, far) == <<f, KLevel, i, j, 2 + far>>
+CaseW3 ==
+    LET a1 == t[1] d == t[2] ra == t[3] far == t[4]
+        cl == [k \in 1..KSize |-> <<0, KLevel, KIC, KJC, 2>>]
+        single == <<1, KLevel, ra, KJC, 2>>
+        filler == [k \in 1..25 |-> <<3, KLevel, KN \div 4 + 7 * ((k - 1) % 5), KN \div 4 + 7 * ((k - 1) \div 5), 2>>]
+    IN  [op |-> "eq", w |-> 3, sweep |-> TRUE, far |-> far = 1,
+         shapes |-> <<[k |-> "pts", v |-> cl \o <<single>> \o filler]>>,
+         tgt |-> [k |-> "cloud", v |-> <<KT(0, KIC, KJC + a1 + d, far), KT(0, KIC + a1, KJC, far)>>]]
+W3OK == KIC + Max(KA1) < KN /\ KJC + Max(KA1) + Max(KA0D) < KN /\ Max(KRA) < KN
+EmitW3 == IF Len(t) = 4 THEN W3OK /\ PrintT(<<"CASE", ToJson(CaseW3)>>) ELSE TRUE
+
 \* the grid loops are simple: 2(w+h) distinct corners
 GridLoopsSimple ==
     \A i \in 1..Len(GRects) :
